@@ -1,0 +1,612 @@
+//go:build verif
+
+// Contracts for the DSL listener (dsltojson.go), checked by govc.
+// Comments and import anchors only; compiled only with -tags verif.
+package transformer
+
+import (
+	"github.com/antlr4-go/antlr/v4"
+	"github.com/hashicorp/go-multierror"
+	openfgav1 "github.com/openfga/api/proto/openfga/v1"
+
+	parser "github.com/openfga/language/pkg/go/gen"
+)
+
+var _ *openfgav1.Userset
+var _ *parser.TypeDefContext
+var _ *antlr.CommonToken
+var _ *multierror.Error
+
+// ---------------------------------------------------------------------------------------------------------------
+// ParseExpression (C01 P2): Combine(rs, op). (The printer work package owns the full contract of this function; the
+// copy here is what the listener callbacks need: the value and the frame.)
+
+//@ func ParseExpression
+//@   props C01 C03
+//@   ensures none:        len(rewrites) == 0 ==> result == nil
+//@   ensures single:      len(rewrites) == 1 ==> result == rewrites[0]
+//@   ensures no_operator: len(rewrites) >= 2 && operator != RELATION_DEFINITION_OPERATOR_OR && operator != RELATION_DEFINITION_OPERATOR_AND
+//@                          && operator != RELATION_DEFINITION_OPERATOR_BUT_NOT ==> result == nil
+//@   ensures union:       len(rewrites) >= 2 && operator == RELATION_DEFINITION_OPERATOR_OR
+//@                          ==> result != nil && fresh(result) && result.GetUnion() != nil && result.GetUnion().Child == rewrites
+//@   ensures intersection: len(rewrites) >= 2 && operator == RELATION_DEFINITION_OPERATOR_AND
+//@                          ==> result != nil && fresh(result) && result.GetIntersection() != nil && result.GetIntersection().Child == rewrites
+//@   ensures difference:  len(rewrites) >= 2 && operator == RELATION_DEFINITION_OPERATOR_BUT_NOT
+//@                          ==> result != nil && fresh(result) && result.GetDifference() != nil
+//@                              && result.GetDifference().Base == rewrites[0] && result.GetDifference().Subtract == rewrites[1]
+//@   ensures frame_usersets:  forall u *openfgav1.Userset :: isold(u) ==> u.Userset == old(u.Userset)
+//@   ensures frame_elems:     forall i int :: 0 <= i && i < len(rewrites) ==> rewrites[i] == old(rewrites[i])
+//@   ensures frame_trees:     forall us *openfgav1.Usersets :: isold(us) ==> us.Child == old(us.Child)
+//@   ensures new_nodes:       forall us *openfgav1.Usersets :: allocated(us) && !old(allocated(us)) ==> us.Child == rewrites
+//@   ensures no_new_nodes:    !(len(rewrites) >= 2 && (operator == RELATION_DEFINITION_OPERATOR_OR || operator == RELATION_DEFINITION_OPERATOR_AND))
+//@                              ==> (forall us *openfgav1.Usersets :: allocated(us) ==> old(allocated(us)))
+
+// ---------------------------------------------------------------------------------------------------------------
+// Header callbacks.
+
+//@ func (*OpenFgaDslListener).EnterMain
+//@   props C09 C08
+//@   requires l != nil
+//@   ensures conditions_map: l.authorizationModel.Conditions != nil
+//@   ensures conditions_fresh: fresh(l.authorizationModel.Conditions)
+//@   ensures conditions_empty: forall k string :: !has(l.authorizationModel.Conditions, k)
+
+//@ func (*OpenFgaDslListener).EnterConditions
+//@   props C09 C08
+//@   requires l != nil
+//@   ensures conditions_map: l.authorizationModel.Conditions != nil
+//@   ensures conditions_fresh: fresh(l.authorizationModel.Conditions)
+//@   ensures conditions_empty: forall k string :: !has(l.authorizationModel.Conditions, k)
+
+// F-08a: a module header without a name sets isModularModel but leaves typeDefExtensions nil; inv_extensions is the
+// establishing post of the object invariant "isModularModel ==> typeDefExtensions != nil" and must fail.
+//@ func (*OpenFgaDslListener).ExitModuleHeader
+//@   props C09 C08
+//@   requires l != nil && ctx != nil
+//@   ensures modular: l.isModularModel
+//@   ensures inv_extensions: l.isModularModel ==> l.typeDefExtensions != nil
+//@   ensures inv_extensions_when_named: ctx.GetModuleName() != nil ==> l.typeDefExtensions != nil && fresh(l.typeDefExtensions)
+//@   ensures module_name: ctx.GetModuleName() != nil ==> l.moduleName == ctx.GetModuleName().GetText()
+//@   ensures frame_conditions: l.authorizationModel.Conditions == old(l.authorizationModel.Conditions)
+
+//@ func (*OpenFgaDslListener).ExitModelHeader
+//@   props C01 C03 C08
+//@   requires l != nil && ctx != nil
+//@   ensures schema_version: ctx.GetSchemaVersion() != nil ==> l.authorizationModel.SchemaVersion == ctx.GetSchemaVersion().GetText()
+//@   ensures schema_version_kept: ctx.GetSchemaVersion() == nil ==> l.authorizationModel.SchemaVersion == old(l.authorizationModel.SchemaVersion)
+//@   ensures frame_conditions: l.authorizationModel.Conditions == old(l.authorizationModel.Conditions)
+//@   ensures frame_modular: l.isModularModel == old(l.isModularModel) && l.typeDefExtensions == old(l.typeDefExtensions)
+
+// ---------------------------------------------------------------------------------------------------------------
+// Relation declarations: the abstract state is (R = currentRelation.Rewrites, op = currentRelation.Operator,
+// S = rewriteStack, restrictions = currentRelation.TypeInfo.DirectlyRelatedUserTypes).
+
+// relInv: object invariant inside a relation declaration (between EnterRelationDeclaration and ExitRelationDeclaration):
+// the relation under construction and the stack exist, and neither the operand list nor any saved operand list holds nil.
+//@ spec relInv(l *OpenFgaDslListener) bool =
+//@      l.currentRelation != nil && l.rewriteStack != nil
+//@   && (forall i int :: 0 <= i && i < len(l.currentRelation.Rewrites) ==> l.currentRelation.Rewrites[i] != nil)
+//@   && (forall j int :: 0 <= j && j < len(l.rewriteStack) ==> l.rewriteStack[j] != nil)
+//@   && (forall j int, i int :: 0 <= j && j < len(l.rewriteStack) && 0 <= i && i < len(l.rewriteStack[j].Rewrites) ==> l.rewriteStack[j].Rewrites[i] != nil)
+
+// sepInv: representation invariant behind the `//nolint:gocritic` append in ExitRelationRecurseNoDirect (C01 P3, the
+// frame obligation "no other live slice sees the written cell"): the operand list under construction and the saved
+// operand lists on the stack live in pairwise different backing arrays, so growing one cannot change another.
+//@ spec sepInv(l *OpenFgaDslListener) bool =
+//@      (forall j int :: 0 <= j && j < len(l.rewriteStack) ==> arr(l.rewriteStack[j].Rewrites) != arr(l.currentRelation.Rewrites))
+//@   && (forall i int, j int :: 0 <= i && i < j && j < len(l.rewriteStack) ==> arr(l.rewriteStack[i].Rewrites) != arr(l.rewriteStack[j].Rewrites))
+
+// treeSep: no operand list of an already built union/intersection node shares its backing array with a list that is
+// still growing; trees_kept (below) then states that no callback changes a node that exists already.
+//@ spec treeSep(l *OpenFgaDslListener) bool =
+//@      (forall us *openfgav1.Usersets :: allocated(us) && arr(us.Child) != 0 ==> arr(us.Child) != arr(l.currentRelation.Rewrites))
+//@   && (forall us *openfgav1.Usersets, j int :: allocated(us) && arr(us.Child) != 0 && 0 <= j && j < len(l.rewriteStack) ==> arr(us.Child) != arr(l.rewriteStack[j].Rewrites))
+
+//@ func (*OpenFgaDslListener).EnterRelationDeclaration
+//@   props C01 C03 C09 C08
+//@   requires l != nil
+//@   ensures inv_established: relInv(l)
+//@   ensures sep_established: sepInv(l)
+//@   ensures tree_sep_established: treeSep(l)
+//@   ensures inv_relation: l.currentRelation != nil && fresh(l.currentRelation) && l.rewriteStack != nil
+//@   ensures starts_empty: len(l.currentRelation.Rewrites) == 0 && len(l.rewriteStack) == 0
+//@                           && len(l.currentRelation.TypeInfo.DirectlyRelatedUserTypes) == 0
+//@   ensures no_operator: l.currentRelation.Operator == RELATION_DEFINITION_OPERATOR_NONE
+//@   ensures frame_typedef: l.currentTypeDef == old(l.currentTypeDef)
+
+//@ func (*OpenFgaDslListener).EnterRelationDefDirectAssignment
+//@   props C01 C03 C08
+//@   requires l != nil && relInv(l)
+//@   requires sepInv(l) && treeSep(l)
+//@   ensures inv_preserved: relInv(l)
+//@   ensures sep_preserved: sepInv(l)
+//@   ensures tree_sep_preserved: treeSep(l)
+//@   ensures trees_kept: forall us *openfgav1.Usersets :: old(allocated(us)) ==> us.Child == old(us.Child)
+//@                     && (forall i int :: 0 <= i && i < len(us.Child) ==> us.Child[i] == old(us.Child[i]))
+//@   ensures restrictions_reset: len(l.currentRelation.TypeInfo.DirectlyRelatedUserTypes) == 0
+//@   ensures frame_rewrites: l.currentRelation.Rewrites == old(l.currentRelation.Rewrites) && l.currentRelation.Operator == old(l.currentRelation.Operator)
+//@   ensures frame_relation: l.currentRelation == old(l.currentRelation)
+
+// F-01a: the appended leaf is &Userset{Userset: &Userset_This{}} whose inner This is nil, so the discriminator the
+// printer uses (GetThis() != nil) does not recognise it: leaf_printable must fail.
+//@ func (*OpenFgaDslListener).ExitRelationDefDirectAssignment
+//@   props C01 C03 C08
+//@   requires l != nil && relInv(l)
+//@   requires sepInv(l) && treeSep(l)
+//@   ensures inv_preserved: relInv(l)
+//@   ensures sep_preserved: sepInv(l)
+//@   ensures tree_sep_preserved: treeSep(l)
+//@   ensures trees_kept: forall us *openfgav1.Usersets :: old(allocated(us)) ==> us.Child == old(us.Child)
+//@                     && (forall i int :: 0 <= i && i < len(us.Child) ==> us.Child[i] == old(us.Child[i]))
+//@   ensures stack_content_kept: forall j int, i int :: 0 <= j && j < len(l.rewriteStack) && 0 <= i && i < len(l.rewriteStack[j].Rewrites) ==>
+//@                     l.rewriteStack[j].Rewrites[i] == old(l.rewriteStack[j].Rewrites[i])
+//@   ensures appends_one: len(l.currentRelation.Rewrites) == old(len(l.currentRelation.Rewrites)) + 1
+//@   ensures prefix_kept: forall i int :: 0 <= i && i < old(len(l.currentRelation.Rewrites)) ==> l.currentRelation.Rewrites[i] == old(l.currentRelation.Rewrites[i])
+//@   ensures leaf_fresh:  let u = l.currentRelation.Rewrites[old(len(l.currentRelation.Rewrites))] :: u != nil && fresh(u)
+//@   ensures leaf_kind:   let u = l.currentRelation.Rewrites[old(len(l.currentRelation.Rewrites))] :: is(u.Userset, *openfgav1.Userset_This)
+//@   ensures leaf_printable: let u = l.currentRelation.Rewrites[old(len(l.currentRelation.Rewrites))] :: isThis(u)
+//@   ensures frame_relation: l.currentRelation == old(l.currentRelation) && l.currentRelation.Operator == old(l.currentRelation.Operator)
+//@   ensures frame_stack: l.rewriteStack == old(l.rewriteStack)
+//@   ensures frame_usersets: forall u *openfgav1.Userset :: isold(u) ==> u.Userset == old(u.Userset)
+
+//@ func (*OpenFgaDslListener).ExitRelationDefRewrite
+//@   props C01 C03 C08
+//@   -- ctx.GetRewriteComputedusersetName() != nil: the rule relationDefRewrite starts with the sub-rule call that sets it
+//@   requires l != nil && ctx != nil && relInv(l) && ctx.GetRewriteComputedusersetName() != nil
+//@   requires sepInv(l) && treeSep(l)
+//@   ensures inv_preserved: relInv(l)
+//@   ensures sep_preserved: sepInv(l)
+//@   ensures tree_sep_preserved: treeSep(l)
+//@   ensures trees_kept: forall us *openfgav1.Usersets :: old(allocated(us)) ==> us.Child == old(us.Child)
+//@                     && (forall i int :: 0 <= i && i < len(us.Child) ==> us.Child[i] == old(us.Child[i]))
+//@   ensures stack_content_kept: forall j int, i int :: 0 <= j && j < len(l.rewriteStack) && 0 <= i && i < len(l.rewriteStack[j].Rewrites) ==>
+//@                     l.rewriteStack[j].Rewrites[i] == old(l.rewriteStack[j].Rewrites[i])
+//@   ensures appends_one: len(l.currentRelation.Rewrites) == old(len(l.currentRelation.Rewrites)) + 1
+//@   ensures prefix_kept: forall i int :: 0 <= i && i < old(len(l.currentRelation.Rewrites)) ==> l.currentRelation.Rewrites[i] == old(l.currentRelation.Rewrites[i])
+//@   ensures leaf_fresh:  let u = l.currentRelation.Rewrites[old(len(l.currentRelation.Rewrites))] :: u != nil && fresh(u)
+//@   ensures leaf_computed: let u = l.currentRelation.Rewrites[old(len(l.currentRelation.Rewrites))] ::
+//@                            ctx.GetRewriteTuplesetName() == nil ==> u.GetComputedUserset() != nil && u.GetTupleToUserset() == nil
+//@   ensures leaf_ttu:    let u = l.currentRelation.Rewrites[old(len(l.currentRelation.Rewrites))] ::
+//@                            ctx.GetRewriteTuplesetName() != nil ==> u.GetTupleToUserset() != nil && u.GetComputedUserset() == nil
+//@                              && u.GetTupleToUserset().GetTupleset() != nil && u.GetTupleToUserset().GetComputedUserset() != nil
+//@   ensures leaf_names:  let u = l.currentRelation.Rewrites[old(len(l.currentRelation.Rewrites))] ::
+//@                            (ctx.GetRewriteTuplesetName() == nil ==> u.GetComputedUserset().Relation == ctx.GetRewriteComputedusersetName().GetText())
+//@                         && (ctx.GetRewriteTuplesetName() != nil ==> u.GetTupleToUserset().GetComputedUserset().Relation == ctx.GetRewriteComputedusersetName().GetText()
+//@                                                                   && u.GetTupleToUserset().GetTupleset().Relation == ctx.GetRewriteTuplesetName().GetText())
+//@   ensures leaf_not_other: let u = l.currentRelation.Rewrites[old(len(l.currentRelation.Rewrites))] ::
+//@                            u.GetThis() == nil && u.GetUnion() == nil && u.GetIntersection() == nil && u.GetDifference() == nil
+//@   ensures frame_relation: l.currentRelation == old(l.currentRelation) && l.currentRelation.Operator == old(l.currentRelation.Operator)
+//@   ensures frame_stack: l.rewriteStack == old(l.rewriteStack)
+//@   ensures frame_usersets: forall u *openfgav1.Userset :: isold(u) ==> u.Userset == old(u.Userset)
+
+// ---------------------------------------------------------------------------------------------------------------
+// Type definitions.
+
+//@ func (*OpenFgaDslListener).EnterTypeDef
+//@   props C09 C01 C03 C16 C08
+//@   requires l != nil && ctx != nil
+//@   requires ctx.GetParser() != nil
+//@   ensures no_name_noop: ctx.GetTypeName() == nil ==> l.currentTypeDef == old(l.currentTypeDef) && $errs == 0
+//@   ensures extend_outside_module_reported: ctx.GetTypeName() != nil && ctx.EXTEND() != nil && !old(l.isModularModel) ==> $errs == 1
+//@   ensures no_spurious_error: !(ctx.GetTypeName() != nil && ctx.EXTEND() != nil && !old(l.isModularModel)) ==> $errs == 0
+//@   ensures error_on_name: {C16} $errs == 1 ==> $errtok == ctx.GetTypeName().GetStart()
+//@   ensures inv_typedef: ctx.GetTypeName() != nil ==> l.currentTypeDef != nil && fresh(l.currentTypeDef) && l.currentTypeDef.Relations != nil
+//@                          && l.currentTypeDef.Metadata != nil && l.currentTypeDef.Metadata.Relations != nil
+//@   ensures type_name: ctx.GetTypeName() != nil ==> l.currentTypeDef.Type == ctx.GetTypeName().GetText()
+//@   ensures starts_empty: ctx.GetTypeName() != nil ==> (forall k string :: !has(l.currentTypeDef.Relations, k) && !has(l.currentTypeDef.Metadata.Relations, k))
+//@   ensures module_attributed: ctx.GetTypeName() != nil && l.isModularModel ==> l.currentTypeDef.Metadata.Module == l.moduleName
+//@   ensures module_unattributed: ctx.GetTypeName() != nil && !l.isModularModel ==> l.currentTypeDef.Metadata.Module == ""
+//@   ensures frame_model: l.authorizationModel.TypeDefinitions == old(l.authorizationModel.TypeDefinitions) && l.isModularModel == old(l.isModularModel)
+
+// ---------------------------------------------------------------------------------------------------------------
+// Conditions.
+
+//@ func (*OpenFgaDslListener).EnterCondition
+//@   props C09 C01 C03 C16 C08
+//@   requires l != nil && ctx != nil
+//@   requires ctx.GetParser() != nil
+//@   ensures no_name_noop: ctx.ConditionName() == nil ==> l.currentCondition == old(l.currentCondition) && $errs == 0
+//@   ensures duplicate_reported: ctx.ConditionName() != nil && old(l.authorizationModel.Conditions[ctx.ConditionName().GetText()]) != nil ==> $errs == 1
+//@   ensures no_spurious_error: !(ctx.ConditionName() != nil && old(l.authorizationModel.Conditions[ctx.ConditionName().GetText()]) != nil) ==> $errs == 0
+//@   ensures error_on_name: {C16} $errs == 1 ==> $errtok == ctx.ConditionName().GetStart()
+//@   ensures inv_condition: ctx.ConditionName() != nil ==> l.currentCondition != nil && fresh(l.currentCondition) && l.currentCondition.Parameters != nil
+//@   ensures condition_name: ctx.ConditionName() != nil ==> l.currentCondition.Name == ctx.ConditionName().GetText() && l.currentCondition.Expression == ""
+//@   ensures starts_empty: ctx.ConditionName() != nil ==> (forall k string :: !has(l.currentCondition.Parameters, k))
+//@   ensures module_attributed: ctx.ConditionName() != nil && l.isModularModel ==> l.currentCondition.Metadata != nil && l.currentCondition.Metadata.Module == l.moduleName
+//@   ensures module_unattributed: ctx.ConditionName() != nil && !l.isModularModel ==> l.currentCondition.Metadata == nil
+//@   ensures frame_conditions: l.authorizationModel.Conditions == old(l.authorizationModel.Conditions)
+//@                              && (forall k string :: l.authorizationModel.Conditions[k] == old(l.authorizationModel.Conditions[k]))
+
+//@ func (*OpenFgaDslListener).ExitConditionExpression
+//@   props C01 C03 C08
+//@   -- inside a condition with a name (A-ANTLR-RT: the expression is visited after the condition name)
+//@   requires l != nil && ctx != nil && l.currentCondition != nil
+//@   ensures expression_text: l.currentCondition.Expression == trimRight(ctx.BaseParserRuleContext.GetText(), "\n")
+//@   ensures frame_condition: l.currentCondition == old(l.currentCondition) && l.currentCondition.Name == old(l.currentCondition.Name)
+//@                              && l.currentCondition.Parameters == old(l.currentCondition.Parameters)
+
+//@ func (*OpenFgaDslListener).ExitCondition
+//@   props C09 C01 C03 C08
+//@   requires l != nil && (l.currentCondition != nil ==> l.authorizationModel.Conditions != nil)
+//@   ensures stored: old(l.currentCondition) != nil ==> l.authorizationModel.Conditions[old(l.currentCondition.Name)] == old(l.currentCondition)
+//@                     && has(l.authorizationModel.Conditions, old(l.currentCondition.Name))
+//@   ensures others_kept: forall k string :: old(l.currentCondition) == nil || k != old(l.currentCondition.Name)
+//@                     ==> l.authorizationModel.Conditions[k] == old(l.authorizationModel.Conditions[k])
+//@                         && (has(l.authorizationModel.Conditions, k) <==> old(has(l.authorizationModel.Conditions, k)))
+//@   ensures cleared: l.currentCondition == nil
+//@   ensures frame_map: l.authorizationModel.Conditions == old(l.authorizationModel.Conditions)
+//@   ensures frame_content: old(l.currentCondition) != nil ==> old(l.currentCondition).Name == old(l.currentCondition.Name)
+//@                     && old(l.currentCondition).Expression == old(l.currentCondition.Expression)
+//@                     && old(l.currentCondition).Parameters == old(l.currentCondition.Parameters)
+
+//@ func (*OpenFgaDslListener).ExitConditionParameter
+//@   props C09 C01 C03 C16 C08
+//@   -- inside a condition with a name (A-ANTLR-RT: parameters are visited after the condition name)
+//@   requires l != nil && ctx != nil && l.currentCondition != nil && l.currentCondition.Parameters != nil
+//@   requires ctx.GetParser() != nil
+//@   ensures incomplete_noop: ctx.ParameterName() == nil || ctx.ParameterType() == nil ==> $errs == 0
+//@                     && (forall k string :: l.currentCondition.Parameters[k] == old(l.currentCondition.Parameters[k]))
+//@   ensures duplicate_reported: ctx.ParameterName() != nil && ctx.ParameterType() != nil
+//@                     && old(l.currentCondition.Parameters[ctx.ParameterName().GetText()]) != nil ==> $errs == 1
+//@   ensures no_spurious_error: !(ctx.ParameterName() != nil && ctx.ParameterType() != nil
+//@                     && old(l.currentCondition.Parameters[ctx.ParameterName().GetText()]) != nil) ==> $errs == 0
+//@   ensures error_on_name: {C16} $errs == 1 ==> $errtok == ctx.ParameterName().GetStart()
+//@   ensures stored: ctx.ParameterName() != nil && ctx.ParameterType() != nil ==>
+//@                     (let p = l.currentCondition.Parameters[ctx.ParameterName().GetText()] :: p != nil && fresh(p) && has(l.currentCondition.Parameters, ctx.ParameterName().GetText()))
+//@   ensures others_kept: forall k string :: ctx.ParameterName() != nil && k != ctx.ParameterName().GetText()
+//@                     ==> l.currentCondition.Parameters[k] == old(l.currentCondition.Parameters[k])
+//@   ensures scalar_has_no_element_type: ctx.ParameterName() != nil && ctx.ParameterType() != nil && ctx.ParameterType().CONDITION_PARAM_CONTAINER() == nil
+//@                     ==> len(l.currentCondition.Parameters[ctx.ParameterName().GetText()].GenericTypes) == 0
+//@   ensures container_element_type: ctx.ParameterName() != nil && ctx.ParameterType() != nil && ctx.ParameterType().CONDITION_PARAM_CONTAINER() != nil
+//@                     && ctx.ParameterType().CONDITION_PARAM_TYPE() != nil
+//@                     ==> (let p = l.currentCondition.Parameters[ctx.ParameterName().GetText()] :: len(p.GenericTypes) == 1 && p.GenericTypes[0] != nil && len(p.GenericTypes[0].GenericTypes) == 0)
+//@   ensures frame_condition: l.currentCondition == old(l.currentCondition) && l.currentCondition.Name == old(l.currentCondition.Name)
+//@                     && l.currentCondition.Parameters == old(l.currentCondition.Parameters)
+
+// ---------------------------------------------------------------------------------------------------------------
+// Relation declarations, continued.
+
+//@ func (*OpenFgaDslListener).ExitRelationDefTypeRestriction
+//@   props C01 C03 C09 C08
+//@   requires l != nil && ctx != nil && relInv(l)
+//@   requires sepInv(l) && treeSep(l)
+//@   ensures inv_preserved: relInv(l)
+//@   ensures sep_preserved: sepInv(l)
+//@   ensures tree_sep_preserved: treeSep(l)
+//@   ensures trees_kept: forall us *openfgav1.Usersets :: old(allocated(us)) ==> us.Child == old(us.Child)
+//@                     && (forall i int :: 0 <= i && i < len(us.Child) ==> us.Child[i] == old(us.Child[i]))
+//@   ensures no_base_noop: ctx.RelationDefTypeRestrictionBase() == nil ==>
+//@                     l.currentRelation.TypeInfo.DirectlyRelatedUserTypes == old(l.currentRelation.TypeInfo.DirectlyRelatedUserTypes)
+//@   ensures appends_one: ctx.RelationDefTypeRestrictionBase() != nil ==>
+//@                     len(l.currentRelation.TypeInfo.DirectlyRelatedUserTypes) == old(len(l.currentRelation.TypeInfo.DirectlyRelatedUserTypes)) + 1
+//@   ensures order_kept: forall i int :: 0 <= i && i < old(len(l.currentRelation.TypeInfo.DirectlyRelatedUserTypes)) ==>
+//@                     l.currentRelation.TypeInfo.DirectlyRelatedUserTypes[i] == old(l.currentRelation.TypeInfo.DirectlyRelatedUserTypes[i])
+//@   ensures ref_fresh: ctx.RelationDefTypeRestrictionBase() != nil ==>
+//@                     (let r = l.currentRelation.TypeInfo.DirectlyRelatedUserTypes[old(len(l.currentRelation.TypeInfo.DirectlyRelatedUserTypes))] :: r != nil && fresh(r))
+//@   ensures ref_type: ctx.RelationDefTypeRestrictionBase() != nil ==>
+//@                     (let r = l.currentRelation.TypeInfo.DirectlyRelatedUserTypes[old(len(l.currentRelation.TypeInfo.DirectlyRelatedUserTypes))],
+//@                          t = ctx.RelationDefTypeRestrictionBase().GetRelationDefTypeRestrictionType() ::
+//@                        (t != nil ==> r.Type == t.GetText()) && (t == nil ==> r.Type == ""))
+//@   ensures ref_condition: ctx.RelationDefTypeRestrictionBase() != nil ==>
+//@                     (let r = l.currentRelation.TypeInfo.DirectlyRelatedUserTypes[old(len(l.currentRelation.TypeInfo.DirectlyRelatedUserTypes))] ::
+//@                        (ctx.ConditionName() != nil ==> r.Condition == ctx.ConditionName().GetText()) && (ctx.ConditionName() == nil ==> r.Condition == ""))
+//@   ensures ref_plain: ctx.RelationDefTypeRestrictionBase() != nil
+//@                     && ctx.RelationDefTypeRestrictionBase().GetRelationDefTypeRestrictionRelation() == nil
+//@                     && ctx.RelationDefTypeRestrictionBase().GetRelationDefTypeRestrictionWildcard() == nil ==>
+//@                     (let r = l.currentRelation.TypeInfo.DirectlyRelatedUserTypes[old(len(l.currentRelation.TypeInfo.DirectlyRelatedUserTypes))] ::
+//@                        r.RelationOrWildcard == nil)
+//@   ensures ref_relation: ctx.RelationDefTypeRestrictionBase() != nil
+//@                     && ctx.RelationDefTypeRestrictionBase().GetRelationDefTypeRestrictionRelation() != nil
+//@                     && ctx.RelationDefTypeRestrictionBase().GetRelationDefTypeRestrictionWildcard() == nil ==>
+//@                     (let r = l.currentRelation.TypeInfo.DirectlyRelatedUserTypes[old(len(l.currentRelation.TypeInfo.DirectlyRelatedUserTypes))] ::
+//@                        is(r.RelationOrWildcard, *openfgav1.RelationReference_Relation) && r.GetWildcard() == nil
+//@                        && r.GetRelation() == ctx.RelationDefTypeRestrictionBase().GetRelationDefTypeRestrictionRelation().GetText())
+//@   ensures ref_wildcard: ctx.RelationDefTypeRestrictionBase() != nil
+//@                     && ctx.RelationDefTypeRestrictionBase().GetRelationDefTypeRestrictionRelation() == nil
+//@                     && ctx.RelationDefTypeRestrictionBase().GetRelationDefTypeRestrictionWildcard() != nil ==>
+//@                     (let r = l.currentRelation.TypeInfo.DirectlyRelatedUserTypes[old(len(l.currentRelation.TypeInfo.DirectlyRelatedUserTypes))] ::
+//@                        r.GetWildcard() != nil && r.GetRelation() == "")
+//@   ensures frame_rewrites: l.currentRelation == old(l.currentRelation) && l.currentRelation.Rewrites == old(l.currentRelation.Rewrites)
+//@                     && l.currentRelation.Operator == old(l.currentRelation.Operator) && l.rewriteStack == old(l.rewriteStack)
+
+//@ func (*OpenFgaDslListener).EnterRelationDefPartials
+//@   props C01 C03 C09 C08
+//@   requires l != nil && ctx != nil && relInv(l)
+//@   requires sepInv(l) && treeSep(l)
+//@   ensures inv_preserved: relInv(l)
+//@   ensures sep_preserved: sepInv(l)
+//@   ensures tree_sep_preserved: treeSep(l)
+//@   ensures trees_kept: forall us *openfgav1.Usersets :: old(allocated(us)) ==> us.Child == old(us.Child)
+//@                     && (forall i int :: 0 <= i && i < len(us.Child) ==> us.Child[i] == old(us.Child[i]))
+//@   ensures op_or:      len(ctx.AllOR()) > 0 ==> l.currentRelation.Operator == RELATION_DEFINITION_OPERATOR_OR
+//@   ensures op_and:     len(ctx.AllOR()) == 0 && len(ctx.AllAND()) > 0 ==> l.currentRelation.Operator == RELATION_DEFINITION_OPERATOR_AND
+//@   ensures op_but_not: len(ctx.AllOR()) == 0 && len(ctx.AllAND()) == 0 && ctx.BUT_NOT() != nil ==> l.currentRelation.Operator == RELATION_DEFINITION_OPERATOR_BUT_NOT
+//@   ensures op_kept:    len(ctx.AllOR()) == 0 && len(ctx.AllAND()) == 0 && ctx.BUT_NOT() == nil ==> l.currentRelation.Operator == old(l.currentRelation.Operator)
+//@   ensures frame_rewrites: l.currentRelation == old(l.currentRelation) && l.currentRelation.Rewrites == old(l.currentRelation.Rewrites)
+//@                     && l.rewriteStack == old(l.rewriteStack)
+
+// ExitRelationRecurse: R' = [Combine(R, op)] when the combination exists, else unchanged.
+//@ func (*OpenFgaDslListener).ExitRelationRecurse
+//@   props C01 C03 C08
+//@   requires l != nil && (l.currentRelation != nil ==> relInv(l))
+//@   requires l.currentRelation != nil ==> sepInv(l) && treeSep(l)
+//@   ensures inv_preserved: l.currentRelation != nil ==> relInv(l)
+//@   ensures sep_preserved: l.currentRelation != nil ==> sepInv(l)
+//@   ensures tree_sep_preserved: l.currentRelation != nil ==> treeSep(l)
+//@   ensures trees_kept: forall us *openfgav1.Usersets :: old(allocated(us)) ==> us.Child == old(us.Child)
+//@                     && (forall i int :: 0 <= i && i < len(us.Child) ==> us.Child[i] == old(us.Child[i]))
+//@   ensures no_relation_noop: old(l.currentRelation) == nil ==> l.currentRelation == nil
+//@   ensures frame_relation: l.currentRelation == old(l.currentRelation) && l.rewriteStack == old(l.rewriteStack)
+//@   ensures frame_operator: l.currentRelation != nil ==> l.currentRelation.Operator == old(l.currentRelation.Operator)
+//@   ensures single: l.currentRelation != nil && old(len(l.currentRelation.Rewrites)) == 1 ==>
+//@                     len(l.currentRelation.Rewrites) == 1 && l.currentRelation.Rewrites[0] == old(l.currentRelation.Rewrites[0])
+//@   ensures union: l.currentRelation != nil && old(len(l.currentRelation.Rewrites)) >= 2 && old(l.currentRelation.Operator) == RELATION_DEFINITION_OPERATOR_OR ==>
+//@                     len(l.currentRelation.Rewrites) == 1 && fresh(l.currentRelation.Rewrites[0])
+//@                     && l.currentRelation.Rewrites[0].GetUnion() != nil && l.currentRelation.Rewrites[0].GetUnion().Child == old(l.currentRelation.Rewrites)
+//@   ensures intersection: l.currentRelation != nil && old(len(l.currentRelation.Rewrites)) >= 2 && old(l.currentRelation.Operator) == RELATION_DEFINITION_OPERATOR_AND ==>
+//@                     len(l.currentRelation.Rewrites) == 1 && fresh(l.currentRelation.Rewrites[0])
+//@                     && l.currentRelation.Rewrites[0].GetIntersection() != nil && l.currentRelation.Rewrites[0].GetIntersection().Child == old(l.currentRelation.Rewrites)
+//@   ensures difference: l.currentRelation != nil && old(len(l.currentRelation.Rewrites)) >= 2 && old(l.currentRelation.Operator) == RELATION_DEFINITION_OPERATOR_BUT_NOT ==>
+//@                     len(l.currentRelation.Rewrites) == 1 && fresh(l.currentRelation.Rewrites[0])
+//@                     && l.currentRelation.Rewrites[0].GetDifference() != nil
+//@                     && l.currentRelation.Rewrites[0].GetDifference().Base == old(l.currentRelation.Rewrites[0])
+//@                     && l.currentRelation.Rewrites[0].GetDifference().Subtract == old(l.currentRelation.Rewrites[1])
+//@   ensures operands_kept: l.currentRelation != nil ==> (forall i int :: 0 <= i && i < old(len(l.currentRelation.Rewrites)) ==>
+//@                     old(l.currentRelation.Rewrites)[i] == old(l.currentRelation.Rewrites[i]))
+//@   ensures undefined_unchanged: l.currentRelation != nil && (old(len(l.currentRelation.Rewrites)) == 0 || (old(len(l.currentRelation.Rewrites)) >= 2
+//@                     && old(l.currentRelation.Operator) != RELATION_DEFINITION_OPERATOR_OR && old(l.currentRelation.Operator) != RELATION_DEFINITION_OPERATOR_AND
+//@                     && old(l.currentRelation.Operator) != RELATION_DEFINITION_OPERATOR_BUT_NOT)) ==> l.currentRelation.Rewrites == old(l.currentRelation.Rewrites)
+//@   ensures frame_usersets: forall u *openfgav1.Userset :: isold(u) ==> u.Userset == old(u.Userset)
+
+// EnterRelationRecurseNoDirect: S' = push(S, (R, op)), R' = [].
+//@ func (*OpenFgaDslListener).EnterRelationRecurseNoDirect
+//@   props C01 C03 C08
+//@   requires l != nil && relInv(l)
+//@   requires sepInv(l) && treeSep(l)
+//@   ensures inv_preserved: relInv(l)
+//@   ensures sep_preserved: sepInv(l)
+//@   ensures tree_sep_preserved: treeSep(l)
+//@   ensures trees_kept: forall us *openfgav1.Usersets :: old(allocated(us)) ==> us.Child == old(us.Child)
+//@                     && (forall i int :: 0 <= i && i < len(us.Child) ==> us.Child[i] == old(us.Child[i]))
+//@   ensures pushed: len(l.rewriteStack) == old(len(l.rewriteStack)) + 1
+//@   ensures top: let t = l.rewriteStack[old(len(l.rewriteStack))] :: t != nil && fresh(t)
+//@                     && t.Rewrites == old(l.currentRelation.Rewrites) && t.Operator == old(l.currentRelation.Operator)
+//@   ensures below_kept: forall i int :: 0 <= i && i < old(len(l.rewriteStack)) ==> l.rewriteStack[i] == old(l.rewriteStack[i])
+//@   ensures below_content_kept: forall i int :: 0 <= i && i < old(len(l.rewriteStack)) && old(l.rewriteStack[i]) != nil ==>
+//@                     old(l.rewriteStack[i]).Rewrites == old(l.rewriteStack[i].Rewrites) && old(l.rewriteStack[i]).Operator == old(l.rewriteStack[i].Operator)
+//@   ensures cleared: len(l.currentRelation.Rewrites) == 0 && l.currentRelation.Rewrites != nil
+//@   ensures operands_kept: forall i int :: 0 <= i && i < old(len(l.currentRelation.Rewrites)) ==>
+//@                     old(l.currentRelation.Rewrites)[i] == old(l.currentRelation.Rewrites[i])
+//@   ensures frame_relation: l.currentRelation == old(l.currentRelation) && l.currentRelation.Operator == old(l.currentRelation.Operator)
+//@   ensures frame_usersets: forall u *openfgav1.Userset :: isold(u) ==> u.Userset == old(u.Userset)
+
+// ExitRelationRecurseNoDirect: with d = Combine(R, op) and (R0, op0) = top(S): S' = pop(S); if d != nil then
+// (R', op') = (R0 ++ [d], op0).
+//@ func (*OpenFgaDslListener).ExitRelationRecurseNoDirect
+//@   props C01 C03 C08
+//@   -- inside a relation declaration every exit is preceded by its enter, which pushed an entry (A-ANTLR-RT)
+//@   requires l != nil && (l.currentRelation != nil ==> relInv(l) && len(l.rewriteStack) >= 1)
+//@   requires l.currentRelation != nil ==> sepInv(l) && treeSep(l)
+//@   ensures inv_preserved: l.currentRelation != nil ==> relInv(l)
+//@   ensures sep_preserved: l.currentRelation != nil ==> sepInv(l)
+//@   ensures tree_sep_preserved: l.currentRelation != nil ==> treeSep(l)
+//@   ensures trees_kept: forall us *openfgav1.Usersets :: old(allocated(us)) ==> us.Child == old(us.Child)
+//@                     && (forall i int :: 0 <= i && i < len(us.Child) ==> us.Child[i] == old(us.Child[i]))
+//@   ensures operands_kept: l.currentRelation != nil ==> (forall i int :: 0 <= i && i < old(len(l.currentRelation.Rewrites)) ==>
+//@                     old(l.currentRelation.Rewrites)[i] == old(l.currentRelation.Rewrites[i]))
+//@   ensures stack_content_kept: l.currentRelation != nil ==> (forall j int, i int :: 0 <= j && j < len(l.rewriteStack) && 0 <= i && i < len(l.rewriteStack[j].Rewrites) ==>
+//@                     l.rewriteStack[j].Rewrites[i] == old(l.rewriteStack[j].Rewrites[i]))
+//@   ensures no_relation_noop: old(l.currentRelation) == nil ==> l.currentRelation == nil && l.rewriteStack == old(l.rewriteStack)
+//@   ensures frame_relation: l.currentRelation == old(l.currentRelation)
+//@   ensures popped: l.currentRelation != nil ==> len(l.rewriteStack) == old(len(l.rewriteStack)) - 1
+//@   ensures below_kept: l.currentRelation != nil ==> (forall i int :: 0 <= i && i < old(len(l.rewriteStack)) - 1 ==> l.rewriteStack[i] == old(l.rewriteStack[i]))
+//@   ensures below_content_kept: forall i int :: 0 <= i && i < old(len(l.rewriteStack)) && old(l.rewriteStack[i]) != nil ==>
+//@                     old(l.rewriteStack[i]).Rewrites == old(l.rewriteStack[i].Rewrites) && old(l.rewriteStack[i]).Operator == old(l.rewriteStack[i].Operator)
+//@   ensures defined_appends_one: l.currentRelation != nil && (old(len(l.currentRelation.Rewrites)) == 1 || (old(len(l.currentRelation.Rewrites)) >= 2
+//@                     && (old(l.currentRelation.Operator) == RELATION_DEFINITION_OPERATOR_OR || old(l.currentRelation.Operator) == RELATION_DEFINITION_OPERATOR_AND
+//@                         || old(l.currentRelation.Operator) == RELATION_DEFINITION_OPERATOR_BUT_NOT))) ==>
+//@                     len(l.currentRelation.Rewrites) == old(len(l.rewriteStack[len(l.rewriteStack)-1].Rewrites)) + 1
+//@                     && l.currentRelation.Operator == old(l.rewriteStack[len(l.rewriteStack)-1].Operator)
+//@   ensures defined_prefix_kept: l.currentRelation != nil && (old(len(l.currentRelation.Rewrites)) == 1 || (old(len(l.currentRelation.Rewrites)) >= 2
+//@                     && (old(l.currentRelation.Operator) == RELATION_DEFINITION_OPERATOR_OR || old(l.currentRelation.Operator) == RELATION_DEFINITION_OPERATOR_AND
+//@                         || old(l.currentRelation.Operator) == RELATION_DEFINITION_OPERATOR_BUT_NOT))) ==>
+//@                     (forall i int :: 0 <= i && i < old(len(l.rewriteStack[len(l.rewriteStack)-1].Rewrites)) ==>
+//@                        l.currentRelation.Rewrites[i] == old(l.rewriteStack[len(l.rewriteStack)-1].Rewrites[i]))
+//@   ensures single: l.currentRelation != nil && old(len(l.currentRelation.Rewrites)) == 1 ==>
+//@                     l.currentRelation.Rewrites[old(len(l.rewriteStack[len(l.rewriteStack)-1].Rewrites))] == old(l.currentRelation.Rewrites[0])
+//@   ensures union: l.currentRelation != nil && old(len(l.currentRelation.Rewrites)) >= 2 && old(l.currentRelation.Operator) == RELATION_DEFINITION_OPERATOR_OR ==>
+//@                     (let d = l.currentRelation.Rewrites[old(len(l.rewriteStack[len(l.rewriteStack)-1].Rewrites))] ::
+//@                        fresh(d) && d.GetUnion() != nil && d.GetUnion().Child == old(l.currentRelation.Rewrites))
+//@   ensures intersection: l.currentRelation != nil && old(len(l.currentRelation.Rewrites)) >= 2 && old(l.currentRelation.Operator) == RELATION_DEFINITION_OPERATOR_AND ==>
+//@                     (let d = l.currentRelation.Rewrites[old(len(l.rewriteStack[len(l.rewriteStack)-1].Rewrites))] ::
+//@                        fresh(d) && d.GetIntersection() != nil && d.GetIntersection().Child == old(l.currentRelation.Rewrites))
+//@   ensures difference: l.currentRelation != nil && old(len(l.currentRelation.Rewrites)) >= 2 && old(l.currentRelation.Operator) == RELATION_DEFINITION_OPERATOR_BUT_NOT ==>
+//@                     (let d = l.currentRelation.Rewrites[old(len(l.rewriteStack[len(l.rewriteStack)-1].Rewrites))] ::
+//@                        fresh(d) && d.GetDifference() != nil && d.GetDifference().Base == old(l.currentRelation.Rewrites[0])
+//@                        && d.GetDifference().Subtract == old(l.currentRelation.Rewrites[1]))
+//@   ensures undefined_unchanged: l.currentRelation != nil && (old(len(l.currentRelation.Rewrites)) == 0 || (old(len(l.currentRelation.Rewrites)) >= 2
+//@                     && old(l.currentRelation.Operator) != RELATION_DEFINITION_OPERATOR_OR && old(l.currentRelation.Operator) != RELATION_DEFINITION_OPERATOR_AND
+//@                     && old(l.currentRelation.Operator) != RELATION_DEFINITION_OPERATOR_BUT_NOT)) ==>
+//@                     l.currentRelation.Rewrites == old(l.currentRelation.Rewrites) && l.currentRelation.Operator == old(l.currentRelation.Operator)
+//@   ensures frame_usersets: forall u *openfgav1.Userset :: isold(u) ==> u.Userset == old(u.Userset)
+
+// ExitRelationDeclaration ("every declaration is reflected", C09): with d = Combine(R, op), when d exists the relation
+// map afterwards holds d under the declared name and the metadata holds the restriction list; a name that is already
+// present is reported. defined(R, op) is written out as: len(R) == 1 || (len(R) >= 2 && op is one of or/and/but not).
+// tdInv: inside a type definition with a name (A-ANTLR-RT: relation declarations are children of a typeDef and are
+// visited after its name).
+//@ spec tdInv(l *OpenFgaDslListener) bool =
+//@   l.currentTypeDef != nil && l.currentTypeDef.Relations != nil && l.currentTypeDef.Metadata != nil && l.currentTypeDef.Metadata.Relations != nil
+
+//@ func (*OpenFgaDslListener).ExitRelationDeclaration
+//@   props C09 C01 C03 C16 C08
+//@   requires l != nil && ctx != nil && relInv(l) && tdInv(l)
+//@   requires ctx.GetParser() != nil
+//@   -- the parent of a context is a real node, never a typed-nil pointer (A-ANTLR-RT)
+//@   requires is(ctx.BaseParserRuleContext.GetParent(), *parser.TypeDefContext) ==> ctx.BaseParserRuleContext.GetParent().(*parser.TypeDefContext) != nil
+//@   ensures no_name_noop: ctx.RelationName() == nil ==> $errs == 0 && l.currentRelation == old(l.currentRelation)
+//@                     && (forall k string :: l.currentTypeDef.Relations[k] == old(l.currentTypeDef.Relations[k]))
+//@   ensures cleared: ctx.RelationName() != nil ==> l.currentRelation == nil
+//@   ensures frame_typedef: l.currentTypeDef == old(l.currentTypeDef) && l.currentTypeDef.Relations == old(l.currentTypeDef.Relations)
+//@                     && l.currentTypeDef.Metadata == old(l.currentTypeDef.Metadata) && l.currentTypeDef.Metadata.Relations == old(l.currentTypeDef.Metadata.Relations)
+//@                     && l.currentTypeDef.Type == old(l.currentTypeDef.Type)
+//@   ensures inv_typedef: tdInv(l)
+//@   ensures reflected_single: ctx.RelationName() != nil && old(len(l.currentRelation.Rewrites)) == 1 ==>
+//@                     l.currentTypeDef.Relations[ctx.RelationName().GetText()] == old(l.currentRelation.Rewrites[0])
+//@   ensures reflected_union: ctx.RelationName() != nil && old(len(l.currentRelation.Rewrites)) >= 2 && old(l.currentRelation.Operator) == RELATION_DEFINITION_OPERATOR_OR ==>
+//@                     (let d = l.currentTypeDef.Relations[ctx.RelationName().GetText()] :: d != nil && fresh(d) && d.GetUnion() != nil && d.GetUnion().Child == old(l.currentRelation.Rewrites))
+//@   ensures reflected_intersection: ctx.RelationName() != nil && old(len(l.currentRelation.Rewrites)) >= 2 && old(l.currentRelation.Operator) == RELATION_DEFINITION_OPERATOR_AND ==>
+//@                     (let d = l.currentTypeDef.Relations[ctx.RelationName().GetText()] :: d != nil && fresh(d) && d.GetIntersection() != nil && d.GetIntersection().Child == old(l.currentRelation.Rewrites))
+//@   ensures reflected_difference: ctx.RelationName() != nil && old(len(l.currentRelation.Rewrites)) >= 2 && old(l.currentRelation.Operator) == RELATION_DEFINITION_OPERATOR_BUT_NOT ==>
+//@                     (let d = l.currentTypeDef.Relations[ctx.RelationName().GetText()] :: d != nil && fresh(d) && d.GetDifference() != nil
+//@                        && d.GetDifference().Base == old(l.currentRelation.Rewrites[0]) && d.GetDifference().Subtract == old(l.currentRelation.Rewrites[1]))
+//@   ensures reflected_present: ctx.RelationName() != nil && (old(len(l.currentRelation.Rewrites)) == 1 || (old(len(l.currentRelation.Rewrites)) >= 2
+//@                     && (old(l.currentRelation.Operator) == RELATION_DEFINITION_OPERATOR_OR || old(l.currentRelation.Operator) == RELATION_DEFINITION_OPERATOR_AND
+//@                         || old(l.currentRelation.Operator) == RELATION_DEFINITION_OPERATOR_BUT_NOT))) ==>
+//@                     l.currentTypeDef.Relations[ctx.RelationName().GetText()] != nil && has(l.currentTypeDef.Relations, ctx.RelationName().GetText())
+//@   ensures restrictions_reflected: ctx.RelationName() != nil && (old(len(l.currentRelation.Rewrites)) == 1 || (old(len(l.currentRelation.Rewrites)) >= 2
+//@                     && (old(l.currentRelation.Operator) == RELATION_DEFINITION_OPERATOR_OR || old(l.currentRelation.Operator) == RELATION_DEFINITION_OPERATOR_AND
+//@                         || old(l.currentRelation.Operator) == RELATION_DEFINITION_OPERATOR_BUT_NOT))) ==>
+//@                     (let m = l.currentTypeDef.Metadata.Relations[ctx.RelationName().GetText()] :: m != nil && fresh(m)
+//@                        && m.DirectlyRelatedUserTypes == old(l.currentRelation.TypeInfo.DirectlyRelatedUserTypes))
+//@   ensures restrictions_content_kept: forall i int :: 0 <= i && i < old(len(l.currentRelation.TypeInfo.DirectlyRelatedUserTypes)) ==>
+//@                     old(l.currentRelation.TypeInfo.DirectlyRelatedUserTypes)[i] == old(l.currentRelation.TypeInfo.DirectlyRelatedUserTypes[i])
+//@   ensures operands_kept: forall i int :: 0 <= i && i < old(len(l.currentRelation.Rewrites)) ==>
+//@                     old(l.currentRelation.Rewrites)[i] == old(l.currentRelation.Rewrites[i])
+//@   ensures duplicate_reported: ctx.RelationName() != nil && (old(len(l.currentRelation.Rewrites)) == 1 || (old(len(l.currentRelation.Rewrites)) >= 2
+//@                     && (old(l.currentRelation.Operator) == RELATION_DEFINITION_OPERATOR_OR || old(l.currentRelation.Operator) == RELATION_DEFINITION_OPERATOR_AND
+//@                         || old(l.currentRelation.Operator) == RELATION_DEFINITION_OPERATOR_BUT_NOT)))
+//@                     && old(l.currentTypeDef.Relations[ctx.RelationName().GetText()]) != nil ==> $errs == 1
+//@   ensures no_spurious_error: ctx.RelationName() == nil || old(l.currentTypeDef.Relations[ctx.RelationName().GetText()]) == nil ==> $errs == 0
+//@   ensures error_on_name: {C16} $errs == 1 ==> $errtok == ctx.RelationName().GetStart()
+//@   ensures others_kept: forall k string :: ctx.RelationName() != nil && k != ctx.RelationName().GetText() ==>
+//@                     l.currentTypeDef.Relations[k] == old(l.currentTypeDef.Relations[k])
+//@                     && l.currentTypeDef.Metadata.Relations[k] == old(l.currentTypeDef.Metadata.Relations[k])
+//@   -- the skipped path: without a combination (no operand, or >= 2 operands and no operator) the declaration is dropped silently
+//@   ensures undefined_dropped: ctx.RelationName() != nil && (old(len(l.currentRelation.Rewrites)) == 0 || (old(len(l.currentRelation.Rewrites)) >= 2
+//@                     && old(l.currentRelation.Operator) != RELATION_DEFINITION_OPERATOR_OR && old(l.currentRelation.Operator) != RELATION_DEFINITION_OPERATOR_AND
+//@                     && old(l.currentRelation.Operator) != RELATION_DEFINITION_OPERATOR_BUT_NOT)) ==> $errs == 0
+//@                     && (forall k string :: l.currentTypeDef.Relations[k] == old(l.currentTypeDef.Relations[k]))
+//@   ensures module_attributed: ctx.RelationName() != nil && (old(len(l.currentRelation.Rewrites)) == 1 || (old(len(l.currentRelation.Rewrites)) >= 2
+//@                     && (old(l.currentRelation.Operator) == RELATION_DEFINITION_OPERATOR_OR || old(l.currentRelation.Operator) == RELATION_DEFINITION_OPERATOR_AND
+//@                         || old(l.currentRelation.Operator) == RELATION_DEFINITION_OPERATOR_BUT_NOT))) ==>
+//@                     l.currentTypeDef.Metadata.Relations[ctx.RelationName().GetText()].Module ==
+//@                       ite(l.isModularModel && is(ctx.BaseParserRuleContext.GetParent(), *parser.TypeDefContext)
+//@                           && ctx.BaseParserRuleContext.GetParent().(*parser.TypeDefContext).EXTEND() != nil, l.moduleName, "")
+//@   ensures trees_kept: forall us *openfgav1.Usersets :: old(allocated(us)) ==> us.Child == old(us.Child)
+//@                     && (forall i int :: 0 <= i && i < len(us.Child) ==> us.Child[i] == old(us.Child[i]))
+//@   ensures frame_usersets: forall u *openfgav1.Userset :: isold(u) ==> u.Userset == old(u.Userset)
+
+// ExitTypeDef (C09 "every declaration is reflected", "the same type extended twice in one file").
+// Preconditions: the object invariant "isModularModel ==> typeDefExtensions != nil" (its establishing post in
+// ExitModuleHeader fails: F-08a; without it safety:nilmap at the typeDefExtensions write fails); Metadata is the object
+// EnterTypeDef created; a current type definition with a non-empty name was created by EnterTypeDef for this very
+// context, so the context has a type name (between type definitions currentTypeDef is nil or has an empty name: post
+// between_typedefs).
+//@ func (*OpenFgaDslListener).ExitTypeDef
+//@   props C09 C01 C03 C16 C08
+//@   requires l != nil && ctx != nil
+//@   requires ctx.GetParser() != nil
+//@   requires l.currentTypeDef != nil ==> l.currentTypeDef.Metadata != nil
+//@   requires l.isModularModel ==> l.typeDefExtensions != nil
+//@   requires l.currentTypeDef != nil && l.currentTypeDef.Type != "" ==> ctx.GetTypeName() != nil
+//@   ensures inactive_noop: old(l.currentTypeDef) == nil || old(l.currentTypeDef.Type) == "" ==> $errs == 0 && l.currentTypeDef == old(l.currentTypeDef)
+//@                     && l.authorizationModel.TypeDefinitions == old(l.authorizationModel.TypeDefinitions)
+//@   ensures reflected: old(l.currentTypeDef) != nil && old(l.currentTypeDef.Type) != "" ==>
+//@                     len(l.authorizationModel.TypeDefinitions) == old(len(l.authorizationModel.TypeDefinitions)) + 1
+//@                     && l.authorizationModel.TypeDefinitions[old(len(l.authorizationModel.TypeDefinitions))] == old(l.currentTypeDef)
+//@   ensures order_kept: forall i int :: 0 <= i && i < old(len(l.authorizationModel.TypeDefinitions)) ==>
+//@                     l.authorizationModel.TypeDefinitions[i] == old(l.authorizationModel.TypeDefinitions[i])
+//@   ensures content_kept: old(l.currentTypeDef) != nil ==> old(l.currentTypeDef).Type == old(l.currentTypeDef.Type)
+//@                     && old(l.currentTypeDef).Relations == old(l.currentTypeDef.Relations)
+//@   ensures metadata_dropped: old(l.currentTypeDef) != nil && old(l.currentTypeDef.Type) != "" && !l.isModularModel
+//@                     && old(len(l.currentTypeDef.Metadata.Relations)) == 0 ==> old(l.currentTypeDef).Metadata == nil
+//@   ensures metadata_kept: old(l.currentTypeDef) != nil && old(l.currentTypeDef.Type) != ""
+//@                     && (l.isModularModel || old(len(l.currentTypeDef.Metadata.Relations)) != 0) ==> old(l.currentTypeDef).Metadata == old(l.currentTypeDef.Metadata)
+//@                     && old(l.currentTypeDef).Metadata.Module == old(l.currentTypeDef.Metadata.Module)
+//@   ensures metadata_relations_kept: old(l.currentTypeDef) != nil && old(l.currentTypeDef.Type) != ""
+//@                     && old(len(l.currentTypeDef.Metadata.Relations)) != 0 ==> old(l.currentTypeDef).Metadata.Relations == old(l.currentTypeDef.Metadata.Relations)
+//@   ensures between_typedefs: l.currentTypeDef == nil || l.currentTypeDef.Type == ""
+//@   ensures extended_twice_reported: old(l.currentTypeDef) != nil && old(l.currentTypeDef.Type) != "" && ctx.EXTEND() != nil && l.isModularModel
+//@                     && old(l.typeDefExtensions[l.currentTypeDef.Type]) != nil ==> $errs == 1
+//@   ensures no_spurious_error: !(old(l.currentTypeDef) != nil && old(l.currentTypeDef.Type) != "" && ctx.EXTEND() != nil && l.isModularModel
+//@                     && old(l.typeDefExtensions[l.currentTypeDef.Type]) != nil) ==> $errs == 0
+//@   ensures error_on_name: {C16} $errs == 1 ==> $errtok == ctx.GetTypeName().GetStart()
+//@   ensures extension_recorded: old(l.currentTypeDef) != nil && old(l.currentTypeDef.Type) != "" && ctx.EXTEND() != nil && l.isModularModel
+//@                     && old(l.typeDefExtensions[l.currentTypeDef.Type]) == nil ==> l.typeDefExtensions[old(l.currentTypeDef.Type)] == old(l.currentTypeDef)
+//@   ensures extensions_others_kept: forall k string :: old(l.currentTypeDef) == nil || k != old(l.currentTypeDef.Type) ==>
+//@                     l.typeDefExtensions[k] == old(l.typeDefExtensions[k])
+//@   ensures first_extension_kept: old(l.currentTypeDef) != nil && old(l.typeDefExtensions[l.currentTypeDef.Type]) != nil ==>
+//@                     l.typeDefExtensions[old(l.currentTypeDef.Type)] == old(l.typeDefExtensions[l.currentTypeDef.Type])
+//@   ensures frame_modular: l.isModularModel == old(l.isModularModel) && l.typeDefExtensions == old(l.typeDefExtensions)
+//@                     && l.authorizationModel.Conditions == old(l.authorizationModel.Conditions)
+
+// ---------------------------------------------------------------------------------------------------------------
+// Error listener (C16 P4, C08 "a syntax error is always reported through the returned error").
+
+//@ func (*OpenFgaDslErrorListener).SyntaxError
+//@   props C16 C08
+//@   -- ANTLR lines are one based (A-ANTLR-RT); needed for the overflow obligation of line-1 only
+//@   requires c != nil && line >= 1
+//@   -- ANTLR never passes a typed-nil token as offending symbol (A-ANTLR-RT)
+//@   requires is(offendingSymbol, *antlr.CommonToken) ==> offendingSymbol.(*antlr.CommonToken) != nil
+//@   ensures reported: c.Errors != nil
+//@   ensures same_collector: old(c.Errors) != nil ==> c.Errors == old(c.Errors)
+//@   ensures one_more: len(c.Errors.Errors) == ite(old(c.Errors) == nil, 0, old(len(c.Errors.Errors))) + 1
+//@   ensures earlier_kept: old(c.Errors) != nil ==> (forall i int :: 0 <= i && i < old(len(c.Errors.Errors)) ==> c.Errors.Errors[i] == old(c.Errors.Errors[i]))
+//@   ensures position: let e = c.Errors.Errors[len(c.Errors.Errors) - 1] :: is(e, *OpenFgaDslSyntaxError)
+//@                     && e.(*OpenFgaDslSyntaxError) != nil && fresh(e.(*OpenFgaDslSyntaxError))
+//@                     && e.(*OpenFgaDslSyntaxError).line == line - 1 && e.(*OpenFgaDslSyntaxError).column == column
+//@                     && e.(*OpenFgaDslSyntaxError).msg == msg
+//@   ensures zero_based_line: let e = c.Errors.Errors[len(c.Errors.Errors) - 1] :: e.(*OpenFgaDslSyntaxError).line >= 0
+
+
+// ---------------------------------------------------------------------------------------------------------------
+// ParseDSL. Loop 1 is the comment/whitespace pre-pass (C03, C16 P3); the rest calls the generated lexer/parser and the
+// tree walker and is out of reach, so the function carries a TRUSTED contract that states only what the listener
+// proofs justify: both results exist, and the error collector is non-nil exactly when the input is rejected
+// (dslRejected(data): at least one SyntaxError call was made while lexing/parsing/walking data; SyntaxError#reported
+// shows that every such call leaves Errors non-nil, and nothing else writes Errors).
+
+//@ opaque dslRejected(data string) bool
+
+// cleanedOf(line): the statement of C03 for one line.
+//@ spec cleanedOf(line string) string =
+//@   ite(trimLeft(line, " ") == "" || substr(trimLeft(line, " "), 0, 1) == "#", "",
+//@       trimRight(ite(contains(line, " #"), substr(line, 0, indexOf(line, " #")), line), " "))
+
+//@ func ParseDSL
+//@   props C03 C16 C08
+//@   ensures results_exist: result0 != nil && result1 != nil && fresh(result0) && fresh(result1)
+//@   -- assumed, not proved (the ANTLR lexer/parser/walker are out of reach): the collector is non-nil exactly for
+//@   -- rejected inputs
+//@   assumes errors_iff_rejected: (result1.Errors != nil) <==> dslRejected(data)
+//@   loop 1 invariant count_kept: len(cleanedLines) == $i
+//@   loop 1 invariant separate: arr(cleanedLines) != arr($s)
+//@   loop 1 invariant cleaned_as_stated: forall k int :: 0 <= k && k < $i ==> cleanedLines[k] == cleanedOf($s[k])
+//@   loop 1 invariant cleaned_is_prefix: forall k int :: 0 <= k && k < $i ==> hasPrefix($s[k], cleanedLines[k])
+//@   loop 1 invariant lines_kept: forall k int :: 0 <= k && k < len($s) ==> $s[k] == pre($s[k])
+
+// ---------------------------------------------------------------------------------------------------------------
+// Entry points (C09: "rejected with a non-nil error and no model"; C08: "a syntax error is always reported through
+// the returned error"): (nil, err) exactly when the error collector is non-nil, i.e. exactly when dslRejected(data).
+
+//@ func TransformDSLToProto
+//@   props C09 C08 C01 C16
+//@   ensures rejected_iff_errors: (err != nil) <==> dslRejected(data)
+//@   ensures no_model_on_error:   err != nil ==> result == nil
+//@   ensures model_on_success:    err == nil ==> result != nil && fresh(result)
+//@   ensures exactly_one:         (result == nil) <==> (err != nil)
+//@   ensures error_is_collector:  err != nil ==> is(err, *multierror.Error)
+
+//@ func TransformModularDSLToProto
+//@   props C09 C08 C16
+//@   ensures rejected_iff_errors: (err != nil) <==> dslRejected(data)
+//@   ensures no_model_on_error:   err != nil ==> result0 == nil && result1 == nil
+//@   ensures model_on_success:    err == nil ==> result0 != nil && fresh(result0)
+//@   ensures exactly_one:         (result0 == nil) <==> (err != nil)
+
+//@ func TransformDSLToJSON
+//@   props C09 C08 C01
+//@   ensures rejected_has_error:  dslRejected(data) ==> err != nil
+//@   ensures no_text_on_error:    err != nil ==> result == ""
